@@ -6,6 +6,7 @@ use std::panic::{catch_unwind, AssertUnwindSafe};
 
 mod canon;
 mod lang;
+mod session;
 use canon::*;
 use lang::*;
 
@@ -84,6 +85,16 @@ fn run_case(line: &str) -> String {
         "relist" => hex_of_str(&basic::lang::Line::new(&arg1()).to_string()),
         "ast" => show_ast_res(true, &basic::lang::Line::new(&arg1()).ast()),
         "astnc" => show_ast_res(false, &basic::lang::Line::new(&arg1()).ast()),
+        "session" => session::run_session(&f[1..]),
+        "compile" => {
+            let srcs: Vec<String> = if f[1] == "-" {
+                vec![]
+            } else {
+                f[1].split(',').map(str_of_hex).collect()
+            };
+            let direct = if f.len() > 2 { Some(str_of_hex(f[2])) } else { None };
+            session::compile_dump(&srcs, direct)
+        }
         "op1" => show_res(run_op1(f[1], parse_val(f[2]))),
         "op2" => show_res(run_op2(f[1], parse_val(f[2]), parse_val(f[3]))),
         "opn" => show_res(run_opn(f[1], f[2..].iter().map(|s| parse_val(s)).collect())),
